@@ -63,10 +63,17 @@ def invalid_config(rng, scheme, cfg):
     from props.c08 import FIELDS
     f = FIELDS[scheme]
     names = list(f["names"])
-    kind = rng.randrange(5)
+    kind = rng.randrange(8)
     c = copy.deepcopy(cfg)
     if kind == 0:
         c["scheme"] = "NoSuch.Scheme"
+    elif kind == 5:
+        c["scheme"] = rng.choice([scheme + " ", " " + scheme, "\t" + scheme, scheme + "\n"])  # a known name, padded
+    elif kind == 6:
+        c["scheme"] = rng.choice([x for x in (scheme.lower(), scheme.upper(), scheme.replace(".", "/"),
+                                              scheme.split(".")[0], scheme.swapcase()) if x != scheme])
+    elif kind == 7:
+        c[f["length"][0]] = rng.choice([0, -1, "32", None])  # never a usable key length in any scheme
     elif kind == 1:
         del c[rng.choice(names)]
     elif kind == 2:
@@ -187,6 +194,13 @@ class Runner:
                 elif op == "create-invalid":
                     svc = self.Service(sid) if sid else self.Service()
                     bad = invalid_config(rng, scheme, cfg)
+                    try:  # "invalid" is defined by the library itself: the scheme cannot be instantiated with it
+                        import schemes as _schemes
+                        _schemes.load_sse_module(bad.get("scheme")).SSEScheme(copy.deepcopy(bad))
+                        acc.count("generated_invalid_config_was_valid")
+                        bad = dict(cfg, scheme="NoSuch.Scheme")
+                    except Exception:
+                        pass
                     svc.handle_create_config(bad)
                     accepted = True
                 elif op == "recreate-same":
